@@ -43,6 +43,10 @@ def analyse(prop, repo, tier='quick'):
             continue          # normalised while discovering methods, not analysed by this property
         for node, table, ktext, missing in nf.memo_issues:
             n_memo += 1
+            if missing and isinstance(missing[0], str) and missing[0].startswith('<') and missing[0].endswith('>'):
+                ctx.ob('memo-key', nf, node, False, 'the remembered value `%s[%s]` is not the value the code would compute now: %s'
+                       % (table, ktext, '; '.join(m[1:-1] for m in missing)))
+                continue
             ctx.ob('memo-key', nf, node, False,
                    'the memo table `%s` is keyed by `%s`, which does not determine the memoised value: the value also depends on %s, so the '
                    'result computed for one iteration is silently reused for another' % (table, ktext, missing))
